@@ -417,6 +417,31 @@ Proof.
   apply skip_when_unchanged_lemma. right. reflexivity.
 Qed.
 
+(* ================================================================ the runner's shortcut is sound *)
+Lemma crash_candidates_sound : forall acts k acc len kt,
+  In kt (crash_candidates acts k acc len) -> In kt (crash_points_from acts k).
+Proof.
+  induction acts as [|a acts IH]; intros k acc len kt H.
+  - exact H.
+  - destruct a; cbn [crash_candidates crash_points_from app] in *;
+      try (destruct H as [H|H]; [left; exact H | right; eapply IH; exact H]).
+    apply in_app_or in H. apply in_or_app. destruct H as [H|H].
+    + left. destruct len as [l|].
+      * destruct (Nat.leb acc l && Nat.leb l (acc + List.length b)) eqn:E; [|contradiction].
+        apply andb_true_iff in E. destruct E as [E1 E2]. apply Nat.leb_le in E1. apply Nat.leb_le in E2.
+        destruct H as [H|[]]. subst kt. apply (in_map (fun t => (k, t))). apply in_seq. lia.
+      * destruct H as [H|[]]. subst kt. apply (in_map (fun t => (k, t))). apply in_seq. lia.
+    + right. eapply IH. exact H.
+Qed.
+
+Lemma crash_possible_fast_sound : forall tmp state sk bs fs0 o,
+  crash_possible_fast tmp state sk bs fs0 o = true -> crash_possible tmp state sk bs fs0 o = true.
+Proof.
+  unfold crash_possible_fast, crash_possible. intros tmp state sk bs fs0 o H.
+  apply existsb_exists in H. destruct H as (kt & Hin & Hp). apply existsb_exists. exists kt. split; [|exact Hp].
+  eapply crash_candidates_sound. exact Hin.
+Qed.
+
 (* ================================================================ sensitivity: other skeletons are NOT crash-atomic
    (the interpreter is generic; these show that the obligations above are what carries the property) *)
 Definition tmpx : fname := [46; 103; 114; 111; 108; 55; 46; 116; 109; 112]%N.   (* ".grol7.tmp" *)
